@@ -235,7 +235,16 @@ func runC21(r *Run) {
 			if idx%100 == 0 {
 				r.out.Sample(text + " => " + got)
 			}
-			r.out.Line("corr", fmt.Sprintf("%d", idx), "STRUCT.EMIT", []string{styleName, od.name, strings.Join(desc, ";")}, got)
+			// the model is also the reading of the property (kept fields once each, tagged/configured
+			// name, tag order then declaration order): a difference is a property failure, except where
+			// the documentation is ambiguous - whether a non-nil EMPTY slice is a "zero value" for omit_zero
+			kind := "prop"
+			for i := range fs {
+				if fs[i].kind == 2 && fs[i].state%3 == 1 {
+					kind = "corr"
+				}
+			}
+			r.out.Line(kind, fmt.Sprintf("%d|emitted-fields", idx), "STRUCT.EMIT", []string{styleName, od.name, strings.Join(desc, ";")}, got)
 			// round trip under the same configuration
 			if err == nil {
 				doc, merr := ce.MarshalToCBEDocument(val.Interface(), cfg)
@@ -358,7 +367,7 @@ func runC21(r *Run) {
 		if idx%100 == 1 {
 			r.out.Sample(text + " => " + got)
 		}
-		r.out.Line("corr", fmt.Sprintf("%d", idx), "STRUCT.LOOKUP", []string{b01(ci), strings.Join(names, "|"), key}, got)
+		r.out.Line("prop", fmt.Sprintf("%d|key-lookup", idx), "STRUCT.LOOKUP", []string{b01(ci), strings.Join(names, "|"), key}, got)
 	})
 }
 
